@@ -612,6 +612,22 @@ def zc_episode(g, kind, steps):
         ep.views.add(v)
         views.append(v)
     if views and r.random() < 0.5:
+        # the view united with itself and with a bitmap derived from it (the very same borrowed container on both sides), then edits
+        v = r.choice(views)
+        d = g.fresh("d")
+        g.emit("ior %s %s" % (v, v))
+        g.emit("or %s %s %s" % (d, v, v))
+        ep.define(d, ks, [m])
+        g.emit("ior %s %s" % (d, v))
+        g.emit("ior %s %s" % (v, d))
+        ep.check()
+        for k in r.sample(ks, min(len(ks), 2)):
+            for w_ in (v, d):
+                g.emit("%s %s %d" % (r.choice(["add", "rem", "cadd", "crem"]), w_, k * CH + g.lowval()))
+            g.emit("zsame %s" % m)
+        g.count("zc:self-union-first")
+        ep.check()
+    if views and r.random() < 0.5:
         # RunOptimize on the fresh view (content-neutral; chunks that keep their kind still borrow the caller's bytes), then edits
         # in every chunk and a detach: the buffer stays what it was, and after the detach nothing refers to it
         v = r.choice(views)
